@@ -48,7 +48,7 @@ class C10(Property):
                     srcmac = nu.mac(rng.choice([i, i, i, 40, 41, rng.randrange(1, n + 1)]))
                     if r < 0.6:
                         j = rng.randrange(1, n + 2)
-                        f = nu.eth_frame(nu.mac(j), srcmac, rng.choice([None, None, 0, 1, 0x67]))
+                        f = nu.eth_frame(nu.mac(j), srcmac, rng.choice([None, None, 0, 1, 0x67, 0x2067, 0xe001, 0xb067]))   # incl. priority / DEI bits on a tagged frame
                     elif r < 0.8:
                         f = nu.eth_frame(b"\xff" * 6, srcmac)
                     elif r < 0.9:
